@@ -182,6 +182,35 @@ def main(argv):
             lines.append('FAILED-OBLIGATION %s (%s) %s' % (v['id'], v['message'], ('failing inputs: ' + ', '.join(x['name'] + ' [' + x.get('input', '') + '] -> ' + x.get('observed', '') for x in failing)) if failing else ('kani counterexample: %s' % v.get('cex') if v.get('cex') else 'no concrete failing input')))
             lines.append('VIOLATION property=%s replay=%s%s' % (prop, rp, tail))
             rc = 1
+    # ---- thorough tier: additionally run every witness program of the units serving the property on the current tree.
+    # A concrete input that fails against the real crates is reported even when every obligation was discharged (the
+    # contracts stop at the dependency boundary; defect D7 was found this way).  Inputs listed by an open known finding
+    # are expected to fail.
+    witness_sweep = []
+    if tier == 'thorough' and not os.environ.get('VX_NO_WITNESS'):
+        pseudo = [dict(unit=n, fn='*', id='witness::' + n) for n in sorted(units) if units[n].get('witness_programs')]
+        wit_all = RP.run_witnesses(REPO, ROOT, units, pseudo, work) if pseudo else {}
+        listed = set(sum([k.get('inputs', []) for k in known if k.get('status') == 'open'], []))
+        already = {x['name'] for v in violations for x in (v.get('_failing') or [])}
+        for pv in pseudo:
+            w = wit_all.get(pv['id'], {})
+            witness_sweep.append(dict(unit=pv['unit'], ran=w.get('ran', []), failing=[x['name'] for x in w.get('failing', [])]))
+            if not w.get('ran') and units[pv['unit']].get('witnesses'):
+                undecided.append('%s: witness program did not run: %s' % (pv['unit'], (w.get('log') or '')[-300:]))
+            for x in w.get('failing', []):
+                if x['name'] in listed:
+                    continue
+                os.makedirs(replay_dir, exist_ok=True)
+                oid = '%s::witness(%s)' % (pv['unit'], x['name'])
+                rp = os.path.join(replay_dir, re.sub(r'[^A-Za-z0-9_.-]+', '_', oid).strip('_') + '.json')
+                json.dump(dict(property=prop, obligation=oid, kind='witness', message='concrete input fails on the real crate',
+                               failing_inputs=[x], witnesses_run=w.get('ran', []), witness_log=w.get('log', ''),
+                               how_to_replay='bin/check %s --replay %s' % (prop, os.path.relpath(rp, ROOT))), open(rp, 'w'), indent=1)
+                if not any(l.startswith('VIOLATION') and x['name'] in ' '.join(lines) for l in lines):
+                    lines.append('FAILED-OBLIGATION %s (concrete witness fails on the real crate) failing inputs: %s [%s] -> %s' % (oid, x['name'], x.get('input', ''), x.get('observed', '')))
+                    lines.append('VIOLATION property=%s replay=%s' % (prop, rp))
+                    new_violations += 1
+                    rc = 1
     if undecided and rc == 0:
         rc = 2
 
@@ -210,6 +239,7 @@ def main(argv):
             'kani': kani_results,
             'bounded_stand_ins': [k for k in kani_results if k.get('bounded')],
             'known_findings_hit': known_hits,
+            'witness_sweep': witness_sweep,
             'undecided': undecided,
             'exhaustive': False,
         },
